@@ -198,9 +198,19 @@ class OsdStub(_SolverStub):
     Buffers persist between calls."""
     kind = 'osd'
 
+    # keyword options under which ldpc's decode is a function of (channel probabilities, syndrome) only;
+    # `schedule` must be 'parallel' or 'serial' ('serial_relative' orders the bits by the reliabilities left
+    # over from the previous call).  Any other option / value: the output may depend on the object's history.
+    PURE_KW = {'error_rate', 'error_channel', 'max_iter', 'bp_method', 'ms_scaling_factor', 'schedule',
+               'omp_thread_count', 'osd_method', 'osd_order', 'input_vector_type'}
+
     def __init__(self, H, error_rate=None, **k):
         super().__init__(H)
         self.kwargs = dict(k, error_rate=error_rate)
+        self.pure = set(k) <= self.PURE_KW and k.get('schedule', 'parallel') in ('parallel', 'serial')
+        self.n_decodes = 0
+        if not self.pure:
+            self.uid += '_hist'
         self.channel = [z3.RealVal(0)] * self.n if error_rate is None else \
             [term_of(error_rate, 'real')] * self.n
         self.osdw_decoding = np.zeros(self.n, dtype=int)
@@ -222,6 +232,12 @@ class OsdStub(_SolverStub):
             raise ValueError(f'syndrome of length {len(s)} for a check matrix with {self.m} rows')
         args = list(self.channel) + s
         sorts = [z3.RealSort()] * self.n + [z3.BoolSort()] * self.m
+        if not self.pure:
+            # history-dependent engine options: one more argument, the state the earlier calls of THIS object
+            # left behind (a fresh unknown per object and call number)
+            args = args + [z3.Int(eng.path_name(f'{self.uid}_state_{self.n_decodes}'))]
+            sorts = sorts + [z3.IntSort()]
+        self.n_decodes += 1
         c, constraint = self._solution(args, sorts, s)
         eng.assume(SymBool(constraint))
         out = as_sa([Bit(t) for t in c])
